@@ -20,6 +20,9 @@ package loading
 //@   ensures [no_rule_without_colon] err == nil ==> contains(trimSpace(targetLine), ":")
 
 //@ func (*makefileParser).parse(p) (pkg, found, err)
+// C16: "an unreadable file yields an error": a scan that ended with an error (a line over the scanner's limit, a read
+// error) is a failure of the loader whether or not an annotation had been seen - never "not a package"
+//@   ensures [scan_error_is_reported] err == nil ==> scanErrChecks > old(scanErrChecks) && !lastScanFailed
 //@   before_call append#1 [annotation_line_verbatim] len(arg2) == 1 && arg2[0] == sub(trimmedNext, 1, len(trimmedNext))
 //@ loop #2
 //@   invariant [same_len] len(annotationLines) == len(annotationLineNumbers)
@@ -32,6 +35,7 @@ package loading
 // without its leading '#', indentation included (block-style maps depend on it), so a script target carries the same
 // fields as the same target written in YAML.
 //@ func (*scriptParser).parse(p) (pkg, found, err)
+//@   ensures [scan_error_is_reported] err == nil ==> scanErrChecks > old(scanErrChecks) && !lastScanFailed
 //@   before_call append#1 [annotation_line_verbatim] len(arg2) == 1 && arg2[0] == sub(trimmedNext, 1, len(trimmedNext))
 // ... and the script file is exactly one target: named by the annotation or else by the file, its own bin output, with the
 // annotation's fields carried over (the file itself added to the inputs, "no-cache" to the tags)
